@@ -345,10 +345,10 @@ def pattern_cases(fmt, tier, seed, shard):
         return
     rnd = rng(seed, 'C12', 'patterns', fmt, shard)
     if fmt == 'sp':
-        nrandom = 12 if tier == 'quick' else 1000
+        nrandom = 12 if tier == 'quick' else 3000
         full = True
     else:
-        nrandom = 2 if tier == 'quick' else 64
+        nrandom = 2 if tier == 'quick' else 200
         full = tier == 'thorough'
     k = 0
     for e in range(1 << ew):
@@ -552,7 +552,7 @@ def arith_operands(tier, rnd):
 def arith_cases(tier, seed, shard):
     rnd = rng(seed, 'C12', 'arith', shard)
     ops = arith_operands(tier, rnd)
-    npairs = 9000 if tier == 'quick' else 120000
+    npairs = 9000 if tier == 'quick' else 300000
     # structured pairs: same operand (exact cancellation, equal compare), negated operand, neighbours, then random pairs
     k = 0
     for a in ops:
@@ -681,6 +681,12 @@ def fxp_cases(tier, seed, shard):
 
 # --------------------------------------------------------------------------- driver
 
+def _split(v):
+    """hash(int) reduces modulo 2**61-1, so wide patterns are hashed as 60-bit limbs (v + 2**63 and v + 4 must not collide)."""
+    m = (1 << 60) - 1
+    return (v >> 120, (v >> 60) & m, v & m)
+
+
 JUDGES = {'pattern': judge_pattern, 'c2': judge_c2, 'arith': judge_arith, 'fxp': judge_fxp}
 CASE_TIMEOUT = 30    # seconds; the slowest case on the unchanged tree takes a few milliseconds
 
@@ -772,12 +778,12 @@ def run_check(run, tier, seed, shard):
                 classes[c] = classes.get(c, 0) + 1
                 yield dict(kind='pattern', fmt=fmt, pattern=hex(v))
         sweep('patterns_' + fmt, counted(), lambda c: int(c['pattern'], 16) != 0,
-              lambda c: hash((1, FMTS.index(c['fmt']), int(c['pattern'], 16))), 20011 if fmt == 'hp' else 7001)
+              lambda c: hash((1, FMTS.index(c['fmt'])) + _split(int(c['pattern'], 16))), 20011 if fmt == 'hp' else 7001)
     run.extra['pattern_classes'] = classes
     if shard is None or tier == 'thorough':
         run.extra['half_patterns_exhaustive'] = True
     # (b) two's complement
-    sweep('twos_complement', c2_cases(tier, seed, shard), lambda c: c['v'] != 0, lambda c: hash((2, c['w'], c['v'])), 997)
+    sweep('twos_complement', c2_cases(tier, seed, shard), lambda c: c['v'] != 0, lambda c: hash((2, c['w']) + _split(c['v'])), 997)
     # (c) FPNum arithmetic
     sweep('fpnum_arith', arith_cases(tier, seed, shard), lambda c: not (desc_is_zero(c['a']) and desc_is_zero(c['b'])),
           lambda c: int(stable_hash([c['a'], c['b']]), 16), 1999)
